@@ -246,7 +246,8 @@ def model_digests(model) -> dict:
     out = {}
     for attr in MODEL_ATTRS:
         value = getattr(model, attr)
-        out[attr] = reaction_digest(value) if attr == "reaction_info" else canon.digest(value)
+        # strict: a model that contains sympy.Dummy symbols is not reproducible in another process
+        out[attr] = reaction_digest(value) if attr == "reaction_info" else canon.digest(value, strict_dummies=True)
     return out
 
 
